@@ -621,6 +621,71 @@ def lifecycle(ctx, rule="C08.validation"):
                line=c.lineno)
 
 
+def register_shape(ctx, rule="C08.add-mode"):
+    """the simulator's per-mode arrays are indexed by LIFETIME mode index (deleted modes keep a None placeholder)"""
+    ctx.explain(f"{rule}: (register shape) (a) add_mode of the phase-space circuits carries every state array over: each `self.X = new` "
+                "for X in nmat / mmat / mean / active (means / covs / weights / active) is computed from the old `self.X`; (b) no method "
+                "assigns `self.active` from get_modes() (the compressed list of live indices: the placeholders of deleted modes would "
+                "be lost and every later index shifts); (c) reset() of every backend re-creates the circuit with the INITIAL number of "
+                "modes (self._init_modes); (d) in GaussianBackend the offset between the x and p blocks of the xp-ordered vectors is the "
+                "number of ALLOCATED slots (from the circuit's arrays), never the number of live modes.")
+    specs = ((G.GAUSS, "GaussianModes", ("nmat", "mmat", "mean", "active")), (B.BOS, "BosonicModes", ("means", "covs", "active")))
+    for relp, cn, attrs in specs:
+        cls = ctx.tree.cls(relp, cn)
+        f = cls.methods.get("add_mode")
+        if f is not None:
+            for a in attrs:
+                sts = [st for st in walk_no_nested(f.node) if isinstance(st, ast.Assign) and dotted(st.targets[0]) == f"self.{a}"]
+                muts = [c for c in walk_no_nested(f.node) if isinstance(c, ast.Call) and isinstance(c.func, ast.Attribute) and
+                        dotted(c.func.value) == f"self.{a}"]
+                augs = [st for st in walk_no_nested(f.node) if isinstance(st, ast.AugAssign) and dotted(st.target) == f"self.{a}"]
+                if not sts:
+                    ok = bool(muts or augs)
+                    ctx.ob(rule, f.site, ok, "" if ok else f"add_mode does not extend `self.{a}`", role=f"carries:{a}", line=f.node.lineno)
+                    continue
+                for st in sts:
+                    ids = cfg_of(f.node).find(st)
+                    d = derives(f.node, st.value, ids[0] if ids else None)
+                    ok = f"self.{a}" in d.attrs
+                    ctx.ob(rule, f.site, ok, "" if ok else f"`{ast.unparse(st)[:50]}`: the new `{a}` array is not filled from the old one - "
+                           f"allocating a mode wipes `{a}` of every existing mode", role=f"carries:{a}", line=st.lineno)
+        for name, m in sorted(cls.methods.items()):
+            for st in walk_no_nested(m.node):
+                if isinstance(st, ast.Assign) and dotted(st.targets[0]) == "self.active":
+                    ids = cfg_of(m.node).find(st)
+                    d = derives(m.node, st.value, ids[0] if ids else None)
+                    bad = d.has_call("self.get_modes", "get_modes")
+                    ctx.ob(rule, m.site, not bad, "" if not bad else f"`{ast.unparse(st)[:50]}` replaces the lifetime-indexed activity list by "
+                           "the compressed list of live modes", role="active-keeps-placeholders", line=st.lineno)
+    for relp, cn in (("backends/gaussianbackend/backend.py", "GaussianBackend"), ("backends/bosonicbackend/backend.py", "BosonicBackend"),
+                     ("backends/fockbackend/backend.py", "FockBackend")):
+        f = ctx.tree.func(relp, f"{cn}.reset")
+        calls = [c for c in walk_no_nested(f.node) if isinstance(c, ast.Call) and dotted(c.func) == "self.circuit.reset"]
+        ok = bool(calls) and all(any("self._init_modes" in derives(f.node, a).attrs for a in list(c.args) + [k.value for k in c.keywords])
+                                 for c in calls)
+        ctx.ob(rule, f.site, ok, "" if ok else f"{cn}.reset does not re-create the circuit with self._init_modes: modes created by New "
+               "survive the reset", role="reset-initial-modes", line=f.node.lineno)
+    gb = ctx.tree.cls("backends/gaussianbackend/backend.py", "GaussianBackend")
+    for name, f in sorted(gb.methods.items()):
+        mp = [p for p in f.pos_params if p in ("modes", "mode")]
+        if not mp:
+            continue
+        for x in walk_no_nested(f.node):
+            if isinstance(x, ast.BinOp) and isinstance(x.op, ast.Add):
+                for a, b in ((x.left, x.right), (x.right, x.left)):
+                    ids = cfg_of(f.node).node_of_expr(x)
+                    da = derives(f.node, a, ids[0] if ids else None)
+                    if not (set(mp) & da.params):
+                        continue
+                    if isinstance(b, ast.Call) and dotted(b.func) == "len" or isinstance(b, ast.Attribute) and b.attr in ("nlen",) or \
+                            isinstance(b, ast.Subscript) and isinstance(b.value, ast.Attribute) and b.value.attr == "shape":
+                        db = derives(f.node, b, ids[0] if ids else None)
+                        bad = db.has_call("self.get_modes", "get_modes") or any(a_.endswith(".active") for a_ in db.attrs)
+                        ctx.ob(rule, f.site, not bad, "" if not bad else f"`{ast.unparse(x)[:50]}`: the x/p block offset is the number of "
+                               "LIVE modes; after a deletion the x quadrature of a mode is paired with the p quadrature of another",
+                               role="xp-offset-allocated", line=x.lineno)
+
+
 def rules(ctx):
     ownership(ctx)
     validation(ctx)
@@ -632,4 +697,7 @@ def rules(ctx):
     ctx.floor("C08.active-guard", 28)
     state_index(ctx)
     add_mode(ctx)
+    register_shape(ctx)
     values(ctx)
+    from . import c09 as _c09
+    _c09.parent_copy(ctx, "C08.ownership")
